@@ -130,6 +130,17 @@ static void run_case(const NvCpu *cpu, const Case &c, const std::vector<std::str
   {
     for (size_t k = 0; k < c.mem[i].second.size(); k++) { mem->write8(c.mem[i].first + k, (uint8_t)c.mem[i].second[k]); }
   }
+  // what the disassembler says about the instruction at pc (C15: the simulators that advance by the disassembler's
+  // length must land on the next disassembled instruction)
+  std::string dis_note;
+  if (steps == 1 && c.pc != 0xffffffff && cpu->disasm != NULL && cpu->unit == 1)
+  {
+    std::string dt;
+    int dn = nv_disasm(cpu, mem, c.pc, dt);
+    char hd[48];
+    snprintf(hd, sizeof(hd), "\n#DIS %d ", dn);
+    dis_note = std::string(hd) + dt + "\n";
+  }
   // snapshot
   std::map<uint32_t, std::string> before;
   for (MemoryPage *p = mem->pages; p != NULL; p = p->next)
@@ -195,6 +206,7 @@ static void run_case(const NvCpu *cpu, const Case &c, const std::vector<std::str
   nv_capture_begin();
   NV_CATCH_EXIT({ if (sim) { sim->dump_registers(); } }, dummy);
   text = nv_capture_end();
+  text += dis_note;
   put32(o, text.size());
   o += text;
   // deliberately no delete of sim/mem before the result is out: destructor problems belong to the next case
